@@ -122,6 +122,10 @@ def run(ctx):
     from .c12 import refcount_table
     refcount_table(ctx, program, "R09.7")
 
+    ctx.rule("R09.8", "legacy @service: no exit of trigger_init leaves a service registered that the context's stop() cannot reach", floor=2)
+    from .c12 import legacy_service_reachability
+    legacy_service_reachability(ctx, program, "R09.8")
+
     ctx.rule("R09.2", "cleanup loops that release per element never return or break on a missing element", floor=3)
     loops = 0
     for u in program.functions():
